@@ -28,7 +28,10 @@ func writeReplay(w *World, id string, ob *Obligation, vc *VC, path string, reaso
 		b.WriteString("verdict: obligation no longer discharged (it is discharged on the unchanged tree); no model available\n")
 	}
 	reproduced := false
-	if vc != nil && ob.Status == "sat" {
+	if vc != nil && (ob.Status == "sat" || ob.Approx) {
+		b.WriteString(w.db.witnessText(vc, ob))
+	}
+	if vc != nil && (ob.Status == "sat" || ob.Approx) {
 		if tmpl := replayers[id]; tmpl != nil {
 			ok, text := tmpl(w, ob, vc)
 			b.WriteString("\n--- replay on the real code ---\n")
@@ -80,7 +83,7 @@ type evidence struct {
 	Violations  int                    `json:"violations"`
 }
 
-func writeEvidence(w *World, pc *PropConfig, id, tier string, seed int, results []*FuncResult, recs []oblRecord, nOb, nDis, unclaimed, violations int, backends map[string]int, solverTime float64, assumedContracts []string, wall float64) {
+func writeEvidence(w *World, pc *PropConfig, id, tier string, seed int, results []*FuncResult, recs []oblRecord, knownRecs []oblRecord, nOb, nDis, unclaimed, violations int, backends map[string]int, solverTime float64, assumedContracts []string, wall float64) {
 	var funcs []string
 	trusted := map[string]bool{}
 	havoc := map[string]bool{}
@@ -146,6 +149,9 @@ func writeEvidence(w *World, pc *PropConfig, id, tier string, seed int, results 
 		"samples":                 samples,
 		"obligation_list":         recs,
 		"unmodelled_calls_havoced": sortedKeys(havoc),
+	}
+	if len(knownRecs) > 0 {
+		cov["known_findings_not_counted"] = knownRecs
 	}
 	if len(warnings) > 0 {
 		cov["encoder_warnings"] = warnings
